@@ -569,3 +569,12 @@ PROPS["C03"]["claim"] += (" The wrapper, AES and message SERIALISERS are re-tran
 # two-way layers are its obligations too.
 PROPS["C08"]["proofs"] = PROPS["C08"]["proofs"] + ["Bmc.Proofs.GenDec.V2Session", "Bmc.Proofs.GenDec.AES128CBC", "Bmc.Proofs.GenDec.Message",
                                                    "Bmc.Proofs.GenDec.V1Session", "Bmc.Proofs.GenDec.RAKPMessage1"]
+
+# END TO END: the property theorems composed with the regenerated loops' equality theorems — statements whose subject is the
+# code as translated on this run (Proofs/EndToEnd/*.lean).
+PROPS["C09"]["proofs"] = PROPS["C09"]["proofs"] + ["Bmc.Proofs.EndToEnd.SessionC09", "Bmc.Proofs.EndToEnd.SessionlessC09"]
+PROPS["C11"]["proofs"] = PROPS["C11"]["proofs"] + ["Bmc.Proofs.EndToEnd.SessionC11", "Bmc.Proofs.EndToEnd.SessionlessC11"]
+PROPS["C04"]["proofs"] = PROPS["C04"]["proofs"] + ["Bmc.Proofs.EndToEnd.SessionC04"]
+for _p in ("C04", "C09", "C11"):
+    PROPS[_p]["claim"] += (" END TO END: composed with the regenerated loops' equality theorems the property theorems become statements about the code as "
+                           "translated from the source on this run (Proofs/EndToEnd: generated_loop_…), with no hand model left in them.")
